@@ -72,7 +72,7 @@ def snapshot_defaults(defaults):
     return out
 
 
-def new_enforcer(box, variant, enforce_new, defaults=None, overwrite=True, warn=False):
+def new_enforcer(box, variant, enforce_new, defaults=None, overwrite=True, warn=False, nreg=None):
     from oslo_config import cfg
     from oslo_policy import policy
     conf = cfg.ConfigOpts()
@@ -81,7 +81,8 @@ def new_enforcer(box, variant, enforce_new, defaults=None, overwrite=True, warn=
     conf.set_override('policy_dirs', box.dirs(), group='oslo_policy')
     conf.set_override('enforce_new_defaults', bool(enforce_new), group='oslo_policy')
     e.suppress_deprecation_warnings = not warn
-    e.register_defaults(defaults if defaults is not None else defaults_for(variant))
+    dl = defaults if defaults is not None else defaults_for(variant)
+    e.register_defaults(dl if nreg is None else dl[:nreg])
     return e
 
 
@@ -121,19 +122,40 @@ def apply_fs(box, ev):
 class Live:
     """one long-lived enforcer with its own files, driven along a history"""
 
-    def __init__(self, rng, variant, enforce_new, defaults=None, via='enforce', overwrite=True, warn=None):
-        self.box = fsbox.Box(rng)
+    def __init__(self, rng, variant, enforce_new, defaults=None, via='enforce', overwrite=True, warn=None, box=None, late=False):
+        self.box = box if box is not None else fsbox.Box(rng)
+        self.own_box = box is None
+        self.peers = [self]                 # every enforcer reading the same files records every file event
         self.variant, self.enforce_new, self.via, self.overwrite = variant, enforce_new, via, overwrite
         self.defaults = defaults if defaults is not None else defaults_for(variant)
         self.snap = snapshot_defaults(self.defaults)
         self.warn = (rng.random() < 0.5) if warn is None else warn
-        self.e = new_enforcer(self.box, variant, enforce_new, self.defaults, overwrite, warn=self.warn)
+        self.e = new_enforcer(self.box, variant, enforce_new, self.defaults, overwrite, warn=self.warn, nreg=0)
         self.roles = ['dflt', 'old', 'nobody'] + [f + '@fixed' for f in MUTABLE]
         self.trace = []
         self.last_print = None
         self.synced = False
+        self.nreg = 0
+        # defaults are registered one by one (the specification counts them); with late=True the
+        # last one is held back until the history asks for it
+        for _ in range(len(self.defaults) - (1 if late else 0)):
+            self.step(('register',))
 
     def step(self, ev):
+        if ev[0] == 'register':
+            if self.nreg >= len(self.defaults):
+                return None
+            self.e.register_default(self.defaults[self.nreg])
+            self.nreg += 1
+            self.synced = False
+            self.trace.append({'op': 'register'})
+            return self.trace[-1]
+        if ev[0] == 'setopt':
+            self.e.conf.set_override('enforce_new_defaults', bool(ev[1]), group='oslo_policy')
+            self.enforce_new_now = bool(ev[1])
+            self.synced = False
+            self.trace.append({'op': 'setopt', 'v': 1 if ev[1] else 0})
+            return self.trace[-1]
         if ev[0] == 'load':
             rec = {'op': 'load', 'force': 1 if ev[1] else 0, 'raised': 0, 'dec': {n: [] for n in NAMES},
                    'fresh': {n: [] for n in NAMES}, 'printsame': 1, 'shared': 1, 'scopeblk': 1}
@@ -161,11 +183,11 @@ class Live:
                     rec['_print_before'], rec['_print_after'] = self.last_print, pr
                 self.last_print = pr
                 # registered names under a system-scoped token: refused, whatever the files say
-                for d in self.defaults:
+                for d in self.defaults[:self.nreg]:
                     for r in self.roles:
                         if self.e.enforce(d.name, {}, {'roles': [r], 'system_scope': 'all'}):
                             rec['scopeblk'] = 0
-                fresh = new_enforcer(self.box, self.variant, self.enforce_new, self.defaults, self.overwrite)
+                fresh = new_enforcer(self.box, self.variant, getattr(self, 'enforce_new_now', self.enforce_new), self.defaults, self.overwrite, nreg=self.nreg)
                 rec['fresh'] = decisions(fresh, self.roles, 'enforce')
                 if snapshot_defaults(self.defaults) != self.snap:
                     rec['shared'] = 0
@@ -178,21 +200,23 @@ class Live:
         r = apply_fs(self.box, ev)
         if r is None:
             return None
-        self.synced = False
-        if r['op'] in ('write', 'ignored'):
-            self.roles.append(stamp(r['f'], r['t']))
-            self.roles.append(stamp(r['f'], r['t']) + '#2')
-        self.trace.append(r)
+        for lv in self.peers:
+            lv.synced = False
+            if r['op'] in ('write', 'ignored'):
+                lv.roles.append(stamp(r['f'], r['t']))
+                lv.roles.append(stamp(r['f'], r['t']) + '#2')
+            lv.trace.append(dict(r))
         return r
 
     def close(self):
-        self.box.close()
+        if self.own_box:
+            self.box.close()
 
 
-def run_history(rng, variant, enforce_new, history, via='enforce', defaults=None, overwrite=True):
+def run_history(rng, variant, enforce_new, history, via='enforce', defaults=None, overwrite=True, late=False):
     """history: list of ('write', f, kind) / ('empty'|'touch'|'delete', f) /
     ('ignored', f) / ('load', force).  Returns the recorded trace."""
-    lv = Live(rng, variant, enforce_new, via=via, defaults=defaults, overwrite=overwrite)
+    lv = Live(rng, variant, enforce_new, via=via, defaults=defaults, overwrite=overwrite, late=late)
     try:
         for ev in history:
             lv.step(ev)
@@ -208,6 +232,7 @@ CONSTANTS
  Variant = "%s"
  StartWithMain = FALSE
  Overwrite = %s
+ StartReg = FALSE
  Names <- MCNames
  MainFile = "main"
  Dirs <- MCDirs
